@@ -1,0 +1,41 @@
+//go:build verif
+
+package light
+
+import (
+	"time"
+
+	cmtdb "github.com/cometbft/cometbft-db"
+	cmtlight "github.com/cometbft/cometbft/light"
+	cmtlightprovider "github.com/cometbft/cometbft/light/provider"
+	cmtlightdb "github.com/cometbft/cometbft/light/store/db"
+)
+
+// VerifNewClientWithProviders creates a light client without any P2P backing
+// over the given CometBFT light block providers and an empty in-memory trusted
+// store: the trust root (height, header hash) is fetched from the primary and
+// every other height goes through CometBFT's real light verification
+// (signatures, validator set hashes, witness cross-checking).
+//
+// Verification-only: lets external harnesses drive code that needs a *Client
+// against an in-memory chain of signed headers.
+func VerifNewClientWithProviders(
+	chainID string,
+	trustHeight int64,
+	trustHash []byte,
+	primary cmtlightprovider.Provider,
+	witnesses []cmtlightprovider.Provider,
+) (*Client, error) {
+	lc, err := newLazyClient(
+		chainID,
+		cmtlight.TrustOptions{Period: 100 * 365 * 24 * time.Hour, Height: trustHeight, Hash: trustHash},
+		primary,
+		witnesses,
+		cmtlightdb.New(cmtdb.NewMemDB(), ""),
+		cmtlight.MaxRetryAttempts(1),
+	)
+	if err != nil {
+		return nil, err
+	}
+	return &Client{lightClient: lc}, nil
+}
